@@ -57,6 +57,7 @@ type Func struct {
 	locals     map[string]bool // names of receiver, parameters and locals (root functions only)
 	localTypes map[string][]types.Type
 	localObjs  map[string][]types.Object
+	sigma      *tableRow             // literal-table row under which row guards are currently viewed (e1_table.go)
 	extraGuard map[ast.Node]*Formula // per-node additional guards (e.g. `return cond` read as: return true under cond)
 }
 
